@@ -292,9 +292,9 @@ Proof.
                  | H : ?x = ?x -> _ |- _ => specialize (H eq_refl)
                  | H : ?P -> _, H' : ?P |- _ => specialize (H H')
                  end;
-          try lia ].
+          try congruence; try lia ].
   (* S_init *)
-  all: try solve [ intros; first [ discriminate | lia | apply HIN; first [assumption | reflexivity | lia] ] ].
+  all: try solve [ intros; first [ discriminate | congruence | lia | apply HIN; first [assumption | reflexivity | lia] ] ].
   (* S_slT *)
   all: try (intros u Hin Hst; gsimpl; rewrite (locof_upd _ _ _ _ _ Hl) in Hst;
        pose proof (HOT t) as HOTt; rewrite Hp in HOTt; cbn in HOTt;
@@ -337,4 +337,7 @@ Proof.
              exists a; rewrite (pcof_upd _ _ _ _ _ Hl); cbn [at_];
              destruct (Nat.eqb_spec a t) as [->|Hne2];
              [ rewrite Hp in Hn; cbn in Hn; first [discriminate | split; auto; congruence] | split; auto; congruence ] ] ] ]).
-  all: idtac "REMAINING". Show. Abort.
+  (* the second and later sleeps of a call keep the stamp of the first one *)
+  all: intros u; rewrite (locof_upd _ _ _ _ _ Hl), (pcof_upd _ _ _ _ _ Hl);
+       destruct (Nat.eqb_spec u t) as [->|Hne]; cbn; [intros _; apply Nat.eqb_neq in Heqb; lia | apply HFS].
+Qed.
